@@ -84,6 +84,14 @@ def build(case):
             for name, pos in cfg[t].items():
                 d[name] = body[pos['start'] - 19:pos['end'] - 19]
             expected.append(d)
+    if case.get('extra_rows'):
+        # rows whose sub id / table id is not in this file's own index: never the requested table's rows
+        for j, (sub_id, tid) in enumerate((('036', 'IP0040T1'), ('360', 'IP0075T1'), ('001', 'IP0006T1'))):
+            if sub_id in subs:
+                continue
+            tcfg = {'x': {'start': 19, 'end': 60}}
+            row, _, _ = data_row('IP9999T1' if expanded else tid, sub_id, body_for(tcfg, 90 + j), 50 + j, expanded)
+            recs.append(row)
     raw = [r.encode(case['enc']) for r in recs]
     stream = vbs_ref.frame(raw)
     return (blk_ref.block(stream) if case['blocked'] else stream), expected
@@ -129,6 +137,76 @@ def check_case(case, acc):
             why = 'row %d column %s = %r, expected %r' % (i, ks[0], got[i].get(ks[0]), expected[i].get(ks[0]))
             sig = 'c18.column.%s' % ('expanded' if case['expanded'] else 'compressed')
         acc.viol(sig, case, why, 'independent slicing of the generated rows')
+
+
+def check_multi_case(case, acc):
+    """several extract files / readers in one process: opened in the given order (construction loads the index),
+    drained in the given order; each must return exactly its own table's rows"""
+    from cardutil import mciipm
+    cfg = param_config()
+    subs = case['files']
+    built = [build(c) for c in subs]
+    acc.case(('multi', repr([(tuple(c['subs']), tuple(c['order']), c['want'], c['expanded']) for c in subs]),
+              tuple(case['open']), tuple(case['drain'])), nontrivial=True, outcome='multi_reader')
+    readers = {}
+    results = {}
+    done = set()
+    try:
+        for step in case['schedule']:
+            op, i = step
+            c = subs[i]
+            if op == 'open':
+                readers[i] = mciipm.IpmParamReader(io.BytesIO(built[i][0]), c['want'], encoding=c['enc'],
+                                                   param_config=cfg, expanded=c['expanded'], blocked=c['blocked'])
+            elif i in done:
+                continue                     # reading on after the end of data is not part of the statement
+            elif op == 'one':
+                try:
+                    results.setdefault(i, []).append(next(readers[i]))
+                except StopIteration:
+                    done.add(i)
+            else:
+                results.setdefault(i, []).extend(list(readers[i]))
+                done.add(i)
+    except Exception as ex:
+        acc.viol('c18.multi.exception', case, repr(ex), 'rows')
+        return
+    for i, c in enumerate(subs):
+        if i not in readers:
+            continue
+        if results.get(i, []) != built[i][1]:
+            got = results.get(i, [])
+            acc.viol('c18.multi.rows', case, 'reader %d returned %d rows (%s)' % (
+                i, len(got), [r.get('table_id') for r in got][:6]), '%d rows of %s' % (len(built[i][1]), c['want']),
+                'several parameter readers used in one process')
+            return
+
+
+def multi_cases(seed):
+    std = ['IP0006T1', 'IP0040T1', 'IP0075T1', 'IP0095T1']
+    base = {'enc': 'latin_1', 'blocked': False, 'seed': seed}
+    out = []
+    import itertools as it
+    assigns = [SUB_POOL[:4], [SUB_POOL[1], SUB_POOL[0], SUB_POOL[3], SUB_POOL[2]], SUB_POOL[1:5]]
+    for a1, a2 in it.permutations(assigns, 2):
+        for want1, want2 in (('IP0040T1', 'IP0040T1'), ('IP0040T1', 'IP0075T1'), ('IP0006T1', 'IP0095T1')):
+            for exp1, exp2 in ((False, False), (False, True)):
+                f1 = dict(base, tables=std, subs=list(a1), order=[0, 1, 2, 3, 0, 1, 2, 3], want=want1, expanded=exp1)
+                # second file: its index lacks two of the tables, but its rows still carry their sub-ids
+                f2 = dict(base, tables=std, subs=list(a2), order=[3, 2, 1, 0, 1, 2], want=want2, expanded=exp2,
+                          enc='cp500', blocked=True)
+                f3 = dict(base, tables=std[1:3], subs=list(a2[1:3]), order=[0, 1, 0], want=std[1], expanded=exp1,
+                          extra_rows=True)
+                for sched_ in ([('open', 0), ('open', 1), ('all', 0), ('all', 1)],
+                               [('open', 0), ('open', 1), ('all', 1), ('all', 0)],
+                               [('open', 0), ('all', 0), ('open', 1), ('all', 1)],
+                               [('open', 0), ('open', 1), ('one', 0), ('one', 1), ('one', 0), ('one', 1), ('all', 0),
+                                ('all', 1)],
+                               [('open', 0), ('all', 0), ('open', 2), ('all', 2), ('open', 1), ('all', 1)]):
+                    out.append({'kind': 'multi', 'files': [f1, f2, f3], 'schedule': [list(x) for x in sched_],
+                                'open': [x[1] for x in sched_ if x[0] == 'open'],
+                                'drain': [x[1] for x in sched_ if x[0] != 'open']})
+    return out
 
 
 def enumerate_cases(tier, seed):
@@ -195,20 +273,29 @@ def enumerate_cases(tier, seed):
                 tl = std if want in std else gl + ['IP0040T1']
                 cases.append(dict(base, tables=tl, subs=SUB_POOL[:4], order=[0, 1, 2, 3, 3, 2, 1, 0, 0], want=want,
                                   expanded=expanded, enc=enc, blocked=blocked, via='csv'))
+    cases += multi_cases(seed)
     return cases
 
 
 def tasks(tier, seed):
-    return [{'cases': ch} for ch in core.spread(enumerate_cases(tier, seed), 64)]
+    return [{'cases': ch} for ch in core.chunks(enumerate_cases(tier, seed), 64)]
 
 
 def run_task(task):
     acc = core.Acc()
     for i, case in enumerate(task['cases']):
         if i == 0:
-            acc.sample(case)
-        check_case(case, acc)
+            acc.sample(case if case.get('kind') != 'multi' else {'kind': 'multi', 'schedule': case['schedule'],
+                                                                 'files': len(case['files'])})
+        replay_into(case, acc)
     return acc
+
+
+def replay_into(case, acc):
+    if case.get('kind') == 'multi':
+        check_multi_case(case, acc)
+    else:
+        check_case(case, acc)
 
 
 def describe(tier, seed):
@@ -219,7 +306,9 @@ def describe(tier, seed):
                 'of tables every multiset of 0..2 rows each and EVERY interleaving; (c) every count vector 0..2 over '
                 'four tables in cyclic order with rows of an unconfigured table in between; (d) generated layouts '
                 '(adjacent 1-wide columns, gaps, single column), a table listed in the index under two sub-ids; (e) missing trailer / unconfigured table must raise '
-                'MciIpmDataError; (f) through mci_ipm_param_to_csv. latin_1/cp500, VBS/1014. Oracle: exactly the '
+                'MciIpmDataError; (f) through mci_ipm_param_to_csv; (g) two or three readers in one process on files with different '
+                'sub-id assignments (and rows whose sub-id is missing from their own index), opened and drained side '
+                'by side, alternately and one after another. latin_1/cp500, VBS/1014. Oracle: exactly the '
                 'requested table\'s rows in file order with timestamp, code and every configured column equal to an '
                 'independent slicing.',
         'assumptions': ['expanded rows: timestamp(10) code(1) table id(8) then columns at the configured positions; '
@@ -232,5 +321,5 @@ def describe(tier, seed):
 
 def replay_case(case):
     acc = core.Acc()
-    check_case(case, acc)
+    replay_into(case, acc)
     return acc
